@@ -37,6 +37,81 @@ def graph_problem(rules_text):
     return undefined, reaches_cycle
 
 
+def run_validator(mapping_text, names, missing=False):
+    """exit status of generator._validate_policy for a policy file with the given text; `names` are registered"""
+    import logging
+    import tempfile
+    import shutil
+    from unittest import mock
+    from oslo_config import cfg
+    from oslo_policy import generator, opts, policy
+    tmp = tempfile.mkdtemp(prefix='verif_val_')
+    before = logging.root.manager.disable
+    lg = logging.getLogger('oslo_policy.policy')
+    lg_prop = lg.propagate
+    lg.propagate = False            # the validator switches logging back on; keep its warnings off our output
+    if not lg.handlers:
+        lg.addHandler(logging.NullHandler())
+    try:
+        pf = os.path.join(tmp, 'policy.yaml')
+        if not missing:
+            open(pf, 'w').write(mapping_text)
+        conf = cfg.CONF
+        conf.reset()
+        opts._register(conf)
+        conf(args=[], project='verif', default_config_files=[], default_config_dirs=[])
+        conf.set_override('policy_file', pf, group='oslo_policy')
+        conf.set_override('policy_dirs', [], group='oslo_policy')
+        with warnings.catch_warnings():
+            warnings.simplefilter('ignore')
+            e = policy.Enforcer(conf)
+            e.register_defaults([policy.RuleDefault(n, 'role:reg_%d' % i) for i, n in enumerate(names)])
+            with mock.patch('oslo_policy.generator._get_enforcer', return_value=e), \
+                    contextlib.redirect_stdout(io.StringIO()):
+                return outcome(generator._validate_policy, 'verif')
+    finally:
+        logging.disable(before)
+        lg.propagate = lg_prop
+        try:
+            cfg.CONF.clear_override('policy_file', group='oslo_policy')
+            cfg.CONF.clear_override('policy_dirs', group='oslo_policy')
+            cfg.CONF.reset()
+        except Exception:       # noqa
+            pass
+        shutil.rmtree(tmp, ignore_errors=True)
+
+
+def validator_cases(rule_sets):
+    import yaml
+    out = []
+    ev = 0
+    for ci, rules_text in enumerate(rule_sets):
+        ev += 1
+        undefined, cyclic = graph_problem(rules_text)
+        want = 1 if (undefined or cyclic) else 0
+        got = run_validator(yaml.safe_dump(rules_text, default_flow_style=False), list(rules_text))
+        bad = None
+        if got != ('ret', want):
+            bad = 'oslopolicy-validator on %r gave %r; graph analysis: undefined reference=%s, reaches a cycle=%s' % (
+                rules_text, got[:2], undefined, cyclic)
+        out.append((('validator', ci), bad))
+    fixed = [('missing policy file', '', ['foo'], True, 1),
+             ('clean file', 'foo: rule:bar\nbar: role:x\n', ['foo', 'bar'], False, 0),
+             ('explicit deny', 'foo: "!"\n', ['foo'], False, 0),
+             ('unregistered name', 'qux: role:a\n', ['foo'], False, 1),
+             ('dangling operator', 'foo: role:a and\n', ['foo'], False, 1),
+             ('unbalanced parenthesis, not the last rule', 'foo: (role:a))\nbar: role:b\n', ['foo', 'bar'], False, 1),
+             ('list holding a number', 'foo: [[1]]\n', ['foo'], False, 1)]
+    for lit in ('false', 'no', 'off', '0', '{}', 'true', '1.5', '{role: admin}', '0.0'):
+        fixed.append(('value %s is no rule' % lit, 'foo: %s\nbar: role:b\n' % lit, ['foo', 'bar'], False, 1))
+    for desc, text, names, missing, want in fixed:
+        ev += 1
+        got = run_validator(text, names, missing)
+        bad = None if got == ('ret', want) else 'oslopolicy-validator, %s (file %r): exit status %r, expected %r' % (desc, text, got[:2], want)
+        out.append((('validator', desc), bad))
+    return ev, out
+
+
 def c13(tier='quick', seed=0):
     from oslo_policy import policy
     rng = random.Random(seed)
@@ -119,6 +194,15 @@ def c13(tier='quick', seed=0):
         R.case(('skip-undefined', ci), bad2)
         if R.full:
             break
+    # the exit status of oslopolicy-validator (generator._validate_policy on a real policy file): 0 exactly when nothing is
+    # wrong; 1 for an undefined reference or a reachable cycle, a missing policy file, a name the service does not register,
+    # and a rule that is wholly unparseable (text that is no sentence; a value that is no rule at all, whatever its truth value)
+    v_ev, v_bad = validator_cases(cases[:40 if tier == 'quick' else 400])
+    for key, bad in v_bad:
+        R.case(key, bad)
+        if R.full:
+            return R.d
+    R.d['evaluations'] += v_ev
     # histories on one long-lived enforcer: the verdict is about the rule set as it is NOW, also after it grew in place
     # (non-overwriting set_rules, late register_default + load) since the last validation
     import warnings
@@ -300,6 +384,57 @@ def c16(tier='quick', seed=0):
                         if isinstance(tgt, dict) and (tgt is target or tgt.get('server') is mid):
                             bad = 'the payload shares mutable parts of the caller\'s target'
                     R.case((ctype, pname, 'nested-opaque', body), bad)
+        # the request carries the caller's credentials, target and policy name whatever the log level of the library's
+        # loggers is, also when their names or values look like secrets a log line would mask
+        import logging as _lg
+        plog = _lg.getLogger('oslo_policy')
+        sublogs = [_lg.getLogger('oslo_policy._external'), _lg.getLogger('oslo_policy.policy')]
+        saved_lv = [(l, l.level, l.propagate) for l in [plog] + sublogs]
+        saved_disable = _lg.root.manager.disable
+        if not plog.handlers:
+            plog.addHandler(_lg.NullHandler())
+        try:
+            for debug in (False, True):
+                _lg.disable(_lg.NOTSET if debug else _lg.CRITICAL)
+                for l in [plog] + sublogs:
+                    l.setLevel(_lg.DEBUG if debug else _lg.WARNING)
+                plog.propagate = False
+                for ctype in ('application/x-www-form-urlencoded', 'application/json'):
+                    conf = new_conf(remote_content_type=ctype)
+                    e = mk_enforcer(rules=policy.Rules.from_dict(rules_text), conf=conf)
+                    for pname in ('direct:p', 'tls:p', 'nested:p', 'deep:p'):
+                        creds = {'roles': ['r1'], 'user_id': 'u', 'auth_token': 'tok123', 'service_token': 's',
+                                 'nested': {'password': 'pw', 'private_key': 'k'}}
+                        target = {'name': 'obj1', 'secret': {'id': 's1'}, 'admin_password': 'x'}
+                        state.update(body='True', status=200, fault=None)
+                        del calls[:]
+                        got = outcome(e.enforce, pname, dict(target), json.loads(json.dumps(creds)))
+                        bad = None
+                        if got[0] != 'ret' or not got[1]:
+                            bad = 'enforce(%r) with a server answering True gave %r' % (pname, got[:2])
+                        elif not calls:
+                            bad = 'no request was sent for %r' % (pname,)
+                        else:
+                            kw = calls[0][1]
+                            if kw.get('json') is not None:
+                                sent_c, sent_t = kw['json'].get('credentials'), kw['json'].get('target')
+                            else:
+                                sent_c, sent_t = json.loads(kw['data']['credentials']), json.loads(kw['data']['target'])
+                            want_c = dict(creds)
+                            if sent_c != want_c:
+                                bad = 'the request for %r (%s, debug logging %s) carried the credentials %r, the caller passed %r' % (
+                                    pname, ctype, 'on' if debug else 'off', sent_c, want_c)
+                            elif sent_t != target:
+                                bad = 'the request for %r (%s, debug logging %s) carried the target %r, the caller passed %r' % (
+                                    pname, ctype, 'on' if debug else 'off', sent_t, target)
+                        R.case(('payload-vs-loglevel', debug, ctype, pname), bad)
+                        if R.full:
+                            return R.d
+        finally:
+            _lg.disable(saved_disable)
+            for l, lv, pr_ in saved_lv:
+                l.setLevel(lv)
+                l.propagate = pr_
         # TLS files named in the configuration: a file that is missing (or unreadable) WHEN THE CHECK RUNS is a fault that
         # raises and decides nothing, whatever earlier evaluations (on this or another enforcer, of this or another rule)
         # found; histories of create / remove / restore on long-lived and fresh enforcers
@@ -559,7 +694,8 @@ def c18(tier='quick', seed=0):
         if rng.random() < 0.7:
             file_map['svc:plain'] = rng.choice(values + ['role:a'])
         if kind in ('renamed', 'split') and rng.random() < 0.7:
-            file_map['svc:old'] = rng.choice(values)
+            # among the values: the deprecated default itself, spelled three ways (an operator pinning the old behaviour)
+            file_map['svc:old'] = rng.choice(values + ['role:legacy', [['role:legacy']], '(role:legacy)', 'role:legacy'])
         elif kind in ('renamed', 'split') and rng.random() < 0.5:
             file_map[rng.choice([n for n in new_names if n.startswith('svc:new')])] = rng.choice(values)
         if kind == 'changed' and rng.random() < 0.7:
